@@ -98,6 +98,10 @@ def cases(tier, seed):
         P = pat.EXH(2) if dd == 2 else pat.RND(3, 40, rng, max_len=4)
         for _ in range(25 if tier == 'quick' else 150):
             add(cfg, rng.choice(P), rng.choice(P))
+    # configuration fuzz over all construction axes
+    for i in range(100 if tier == 'quick' else 1000):
+        cfg, dd = pat.random_cfg(rng, d=rng.choice((1, 2, 2, 3, 3, 4)))
+        add(cfg, pat.random_pattern(rng, dd, max_len=4 if dd >= 3 else 4), pat.random_pattern(rng, dd, max_len=4))
     # option slices
     for opt in (dict(cse=False), dict(symbolcls='sympy'), dict(wrapper='identity')):
         for base in (dict(p=2), dict(p=1, q=1), dict(p=2, r=1)):
